@@ -25,9 +25,21 @@ class Roles:
     pass
 
 
-def discover(m):
-    """Role queries of DESIGN section 3.1 for the scheduler engine; an empty role is an AnalysisError."""
+def discover(m, partial=False):
+    """Role queries of DESIGN section 3.1 for the scheduler engine; an empty role is an AnalysisError.
+    partial=True: return the roles found before the first role that could not be identified (r.incomplete = the reason)."""
     r = Roles()
+    r.incomplete = None
+    try:
+        return _discover(m, r)
+    except AnalysisError as e_:
+        if partial and getattr(r, "nodecb", None) is not None and getattr(r, "usercall", None) is not None:
+            r.incomplete = str(e_)
+            return r
+        raise
+
+
+def _discover(m, r):
     r.engine = m.one_func("run_function_on_graph", "ENGINE")
     e = r.engine
     # POOL: context manager entered by ENGINE that (transitively) constructs threading.Thread
@@ -1758,3 +1770,49 @@ def rule_interrupt_cleanup(ctx, rid, r):
         ctx.ob(rid, f"{e.short}/join-handler", (not wide) or reraises, loc(e, h),
                "handler on join() does not swallow KeyboardInterrupt" if (not wide) or reraises else
                "a handler around queue.join() swallows KeyboardInterrupt", head(h))
+
+
+# ------------------------------------------------------------------------------------------------ C16: what the engine keeps of failures
+def rule_failures_not_accumulated(ctx, rid, r):
+    """The engine keeps (at most) the first failure for the whole run.  Every further failure object it kept would pin the failed
+    call's frames - and through them its arguments - until the run ends.  Checked on the handler that protects the user call:
+    nothing derived from the caught exception is added to a container that lives in the engine's scope (append / add / extend /
+    insert / subscript store / setdefault)."""
+    m = ctx.model
+    cb, e = r.nodecb, r.engine
+    mod = cb.module
+    ust = stmt_of(mod, r.usercall)
+    tries = [n for n in cb.own_nodes() if isinstance(n, ast.Try) and any(s_ is ust or inside(mod, ust, s_) for s_ in n.body)]
+    n_sites = 0
+    for t in tries:
+        for h in t.handlers:
+            tainted = {h.name} if h.name else set()
+            # locals assigned from the exception inside the handler are derived from it
+            for _ in range(3):
+                for n in ast.walk(h):
+                    if isinstance(n, ast.Assign) and names_in(n.value) & tainted:
+                        for tg in n.targets:
+                            if isinstance(tg, ast.Name):
+                                tainted.add(tg.id)
+            for n in ast.walk(h):
+                n_sites += 1
+                sink = val = None
+                if isinstance(n, ast.Call) and isinstance(n.func, ast.Attribute) and isinstance(n.func.value, ast.Name) and \
+                        n.func.attr in ("append", "add", "extend", "insert", "appendleft", "setdefault", "update", "put", "put_nowait"):
+                    sink, val = n.func.value.id, n
+                elif isinstance(n, (ast.Assign, ast.AugAssign)):
+                    for tg in (n.targets if isinstance(n, ast.Assign) else [n.target]):
+                        if isinstance(tg, ast.Subscript) and isinstance(tg.value, ast.Name):
+                            sink, val = tg.value.id, n.value
+                        elif isinstance(n, ast.AugAssign) and isinstance(tg, ast.Name) and isinstance(n.value, (ast.List, ast.Tuple, ast.Set)):
+                            sink, val = tg.id, n.value
+                if sink is None or not (names_in(val) & tainted):
+                    continue
+                if sink == getattr(r, "queue_name", None):
+                    continue
+                if m.binding_scope(cb, sink) is e:
+                    ctx.ob(rid, f"{cb.short}/failures-accumulated", False, loc(cb, n),
+                           f"every failure is added to `{sink}`, which lives as long as the run: the tracebacks of all failed calls (their frames, "
+                           f"and through them their argument values) stay reachable until the run ends, not just the first failure's",
+                           norm(stmt_of(mod, n))[:100])
+    ctx.ob(rid, f"{cb.short}/failures-not-accumulated/examined", True, loc(cb), f"examined {n_sites} nodes of the failure handler(s)")
